@@ -110,6 +110,7 @@ impl<'ast> Visit<'ast> for Body {
 struct V {
     cur_impl: Option<String>,
     cur_trait: Option<String>,
+    cur_trait_full: Option<String>,
     cur_mod: Vec<String>,
     out: Vec<Value>,
 }
@@ -125,7 +126,7 @@ impl V {
         };
         let stmts: Vec<Value> = block.map(|b| b.stmts.iter().map(|s| r(s)).collect()).unwrap_or_default();
         self.out.push(json!({
-            "kind":"fn", "impl": self.cur_impl, "trait": self.cur_trait, "mod": self.cur_mod.join("::"), "fn": name,
+            "kind":"fn", "impl": self.cur_impl, "trait": self.cur_trait, "trait_full": self.cur_trait_full, "mod": self.cur_mod.join("::"), "fn": name,
             "item": item, "attrs": attrs(at), "vis": vis, "sig": r(sig), "ret": ret,
             "asyncness": sig.asyncness.as_ref().map(|a| r(a)),
             "body": block.map(|b| r(b)), "stmts": stmts,
@@ -150,14 +151,20 @@ impl<'ast> Visit<'ast> for V {
     }
     fn visit_item_impl(&mut self, i: &'ast syn::ItemImpl) {
         let old = (self.cur_impl.take(), self.cur_trait.take());
+        let old_full = self.cur_trait_full.take();
         self.cur_impl = Some(ty_name(&i.self_ty));
         self.cur_trait = i.trait_.as_ref().map(|(_, p, _)| p.segments.last().unwrap().ident.to_string());
+        self.cur_trait_full = i.trait_.as_ref().map(|(_, p, _)| {
+            use quote::ToTokens;
+            p.to_token_stream().to_string().replace(' ', "")
+        });
         let trait_full = i.trait_.as_ref().map(|(_, p, _)| r(p));
         self.out.push(json!({"kind":"impl","impl": self.cur_impl, "trait": self.cur_trait, "trait_span": trait_full, "mod": self.cur_mod.join("::"),
             "item": r(i), "self_ty": r(&*i.self_ty), "generics": r(&i.generics), "brace": [i.brace_token.span.open().byte_range().start, i.brace_token.span.close().byte_range().end]}));
         syn::visit::visit_item_impl(self, i);
         self.cur_impl = old.0;
         self.cur_trait = old.1;
+        self.cur_trait_full = old_full;
     }
     fn visit_impl_item_fn(&mut self, f: &'ast syn::ImplItemFn) {
         self.push_fn(f.sig.ident.to_string(), r(f), &f.attrs, vis_span(&f.vis), &f.sig, Some(&f.block));
@@ -225,7 +232,7 @@ fn main() {
                 std::process::exit(2);
             }
         };
-        let mut v = V { cur_impl: None, cur_trait: None, cur_mod: vec![], out: vec![] };
+        let mut v = V { cur_impl: None, cur_trait: None, cur_trait_full: None, cur_mod: vec![], out: vec![] };
         v.visit_file(&file);
         all.insert(p, Value::Array(v.out));
     }
